@@ -246,19 +246,29 @@ func exec(line string) string {
 			return strconv.Itoa(int(s2k.VerifConfigEncodedCount(&s2k.Config{S2KCount: o.Int("cfg")})))
 		})
 	case "ps":
-		rd := bytes.NewReader(o.Hex("spec"))
+		specBytes := o.Hex("spec")
+		rd := bytes.NewReader(specBytes)
 		f, err := s2k.Parse(rd)
 		if err != nil {
 			return errClass(err)
 		}
-		key := make([]byte, o.Int("len"))
-		f(key, o.Hex("pw"))
+		rest := rd.Len()
+		for j := range specBytes { // the parsed function must not depend on the caller's specifier bytes
+			specBytes[j] = 0xcc
+		}
+		pw := o.Hex("pw")
+		pw0 := bytes.Clone(pw)
+		key := bytes.Repeat([]byte{0x77}, o.Int("len")) // dirty output buffer: every byte must be written
+		f(key, pw)
+		if !bytes.Equal(pw, pw0) {
+			return "input-modified"
+		}
 		key2 := make([]byte, o.Int("len")) // the returned function is reusable
-		f(key2, o.Hex("pw"))
+		f(key2, pw)
 		if !bytes.Equal(key, key2) {
 			return "unstable"
 		}
-		return fmt.Sprintf("ok rest=%d key=%s", rd.Len(), hx.Hex(key))
+		return fmt.Sprintf("ok rest=%d key=%s", rest, hx.Hex(key))
 	case "kat":
 		f, err := s2k.Parse(bytes.NewReader(o.Hex("spec")))
 		if err != nil {
@@ -272,18 +282,23 @@ func exec(line string) string {
 		if a == nil {
 			return "bad-op"
 		}
-		key := make([]byte, o.Int("len"))
+		key := bytes.Repeat([]byte{0x77}, o.Int("len")) // dirty output buffer
 		h := a.h.New()
 		h.Write([]byte("stale")) // the functions must Reset the hash they are given
+		pw, salt := o.Hex("pw"), o.Hex("salt")
+		pw0, salt0 := bytes.Clone(pw), bytes.Clone(salt)
 		switch o.Str("f") {
 		case "simple":
-			s2k.Simple(key, h, o.Hex("pw"))
+			s2k.Simple(key, h, pw)
 		case "salted":
-			s2k.Salted(key, h, o.Hex("pw"), o.Hex("salt"))
+			s2k.Salted(key, h, pw, salt)
 		case "iterated":
-			s2k.Iterated(key, h, o.Hex("pw"), o.Hex("salt"), o.Int("count"))
+			s2k.Iterated(key, h, pw, salt, o.Int("count"))
 		default:
 			return "bad-op"
+		}
+		if !bytes.Equal(pw, pw0) || !bytes.Equal(salt, salt0) {
+			return "input-modified"
 		}
 		return hx.Hex(key)
 	case "sz":
@@ -292,11 +307,15 @@ func exec(line string) string {
 			return "bad-op"
 		}
 		var w bytes.Buffer
-		key := make([]byte, o.Int("len"))
+		key := bytes.Repeat([]byte{0x77}, o.Int("len"))
 		pw := o.Hex("pw")
+		pw0 := bytes.Clone(pw)
 		err := s2k.Serialize(&w, key, bytes.NewReader(o.Hex("rnd")), pw, cfgOf(o, a))
 		if err != nil {
 			return errClass(err)
+		}
+		if !bytes.Equal(pw, pw0) {
+			return "input-modified"
 		}
 		// round trip: the serialized specifier parses back to a function that derives the same key
 		f, err := s2k.Parse(bytes.NewReader(w.Bytes()))
